@@ -137,93 +137,113 @@ def check_setter(prog, res, f, cont, el):
         res.viol('three-way-effects', inst + ' loop', f.loc(), 'the setter iterates over the container: other elements may be touched', function=f.sig, expr='loop')
 
 
-def column_adder(prog, res, f, kind):
-    """kind: 'point' or 'analog'"""
+def column_adder(prog, res, f, kind, rule='column'):
+    """kind: 'point' or 'analog'.  Exactly one append site into the stored frames; it appends element
+    [f](/[sf])[c] of the argument to stored frame f (/sub-frame sf); the enclosing counted loops
+    (index or range-for) run f over every stored frame, sf over every stored sub-frame and c over the
+    columns *of the first frame* (so that every frame receives the same number of columns)."""
+    from loops import loops_around
     R = Renderer(f)
     inst = 'c3d::%s(frames)' % f.name
+    E = r'(?:\.point\(local:(\w+)\)|\._points\[local:(\w+)\])' if kind == 'point' else r'(?:\.channel\(local:(\w+)\)|\._channels\[local:(\w+)\])'
+    F = r'(?:arg0\[local:(\w+)\])'
+    SF = r'(?:\.subframe\(local:(\w+)\)|\._subframe\[local:(\w+)\])'
     if kind == 'point':
-        tgt_re = r'^this\._data\.frame\(local:(\w+)\)\._points$'
-        val_re = r'^arg0\[local:(\w+)\]\._points\.point\(local:(\w+)\)$'
+        tgt_re = r'^this\._data\.(?:frame\(local:(\w+)\)|_frames\[local:(\w+)\])\._points$'
+        val_re = r'^' + F + r'\._points' + E + '$'
         setter = 'point'
     else:
-        tgt_re = r'^this\._data\.frame\(local:(\w+)\)\._analogs\.subframe\(local:(\w+)\)$'
-        val_re = r'^arg0\[local:(\w+)\]\._analogs\.subframe\(local:(\w+)\)\.channel\(local:(\w+)\)$'
+        tgt_re = r'^this\._data\.(?:frame\(local:(\w+)\)|_frames\[local:(\w+)\])\._analogs' + SF + '$'
+        val_re = r'^' + F + r'\._analogs' + SF + E + '$'
         setter = 'channel'
     sites = []
     for n in f.calls():
-        if n['callee']['name'] == setter and n['callee'].get('inrepo') and not n['callee'].get('const') and f.call_obj(n) is not None:
+        if n['callee']['name'] in (setter, 'push_back', 'emplace_back') and not n['callee'].get('const') and f.call_obj(n) is not None:
             o = R.render(f.call_obj(n))
             if o.startswith('this._data'):
                 sites.append(n)
     if len(sites) != 1:
-        res.viol('column', inst, f.loc(), 'expected exactly one append site into the stored frames, found %d' % len(sites), function=f.sig, expr='sites')
+        (res.viol if not sites else res.undecided)(rule, inst, f.loc(), 'expected exactly one append site into the stored frames, found %d' % len(sites), function=f.sig, expr='sites')
         return
     n = sites[0]
     o = R.render(f.call_obj(n))
+    if n['callee']['name'] != setter:
+        o = re.sub(r'\._(points|channels)$', '', o)
     args = f.call_args(n)
     explicit = [a for a in args if f.nodes[f.strip(a, 'all')]['k'] != 'CXXDefaultArgExpr']
     mt = re.match(tgt_re, o)
-    mv = re.match(val_re, R.render(explicit[0])) if explicit else None
-    if len(explicit) != 1 or not mt or not mv:
-        res.viol('column', inst, f.loc(n['id']), 'the append is %s.%s(%s); expected one value appended (no index) to the stored frame taken from the same frame of the argument' %
-                 (o, setter, ', '.join(R.render(a) for a in explicit)), function=f.sig, expr='shape')
+    rv = R.render(explicit[0]) if explicit else ''
+    rv = re.sub(r'^copy\((.*)\)$', r'\1', rv)
+    mv = re.match(val_re, rv)
+    if len(explicit) != 1:
+        res.viol(rule, inst, f.loc(n['id']), 'the append %s.%s(%s) passes an index: a column adder appends' % (o, setter, ', '.join(R.render(a) for a in explicit)), function=f.sig, expr='shape')
         return
+    if not mt or not mv:
+        res.undecided(rule, inst, f.loc(n['id']), 'the append is %s.%s(%s): not a shape the rule reads (stored frame[f] <- argument[f] element c)' %
+                      (o, setter, rv), function=f.sig, expr='shape')
+        return
+    pick = lambda *g: [x for x in g if x][0]
     if kind == 'point':
-        fvar, = mt.groups()
-        vf, vidx = mv.groups()
-        same = fvar == vf
-        sfvar = None
+        g = mt.groups()
+        fvar, sfvar = pick(g[0], g[1]), None
+        g = mv.groups()
+        vf, vsf, vidx = g[0], None, pick(g[1], g[2])
     else:
-        fvar, sfvar = mt.groups()
-        vf, vsf, vidx = mv.groups()
-        same = fvar == vf and sfvar == vsf
-    if not same:
-        res.viol('column', inst, f.loc(n['id']), 'value is taken from frame/sub-frame (%s) but appended to frame/sub-frame (%s)' % (mv.groups(), mt.groups()), function=f.sig, expr='same-index')
+        g = mt.groups()
+        fvar, sfvar = pick(g[0], g[1]), pick(g[2], g[3])
+        g = mv.groups()
+        vf, vsf, vidx = g[0], pick(g[1], g[2]), pick(g[3], g[4])
+    if fvar != vf or sfvar != vsf:
+        res.viol(rule, inst, f.loc(n['id']), 'value is taken from frame/sub-frame (%s) but appended to frame/sub-frame (%s)' % ((vf, vsf), (fvar, sfvar)), function=f.sig, expr='same-index')
         return
-    # loops
-    fors = {}
-    for fid in enclosing_fors(f, n['id']):
-        lf = normal_for(f, fid)
-        if lf is None:
-            res.viol('column', inst, f.loc(fid), 'append loop is not in normal form', function=f.sig, expr='normal-form')
-            return
-        fors[lf['name']] = lf
+    la = loops_around(f, n['id'], R)
+    if any(l['kind'] == 'other' or l['name'] is None for l in la):
+        res.undecided(rule, inst, f.loc(n['id']), 'an enclosing loop is not a counted loop over [0, bound)', function=f.sig, expr='normal-form')
+        return
+    fors = {l['name']: l for l in la}
     need = [fvar, vidx] + ([sfvar] if sfvar else [])
     if set(fors) != set(need):
-        res.viol('column', inst, f.loc(n['id']), 'the append is enclosed by loops over %s; expected exactly loops over %s' % (sorted(fors), sorted(need)), function=f.sig, expr='loops')
+        res.viol(rule, inst, f.loc(n['id']), 'the append is enclosed by loops over %s; expected exactly loops over %s' % (sorted(fors), sorted(need)), function=f.sig, expr='loops')
         return
     bad = []
-    guards = [R.render(i['cond']) for i in f.all_nodes({'IfStmt'})]
+    guards = [R.render(i['cond']) for i in f.all_nodes({'IfStmt'}) if any(f.nodes[x]['k'] == 'CXXThrowExpr' for x in f.descendants(i['then']))]
     allg = ' ;; '.join(guards)
+
+    def refused(a, b):
+        return any(('(%s != %s)' % (x, y)) in allg for x, y in ((a, b), (b, a)))
+    NP0 = 'arg0[0]._points._points.size'
+    NC0 = 'arg0[0]._analogs.subframe(0)._channels.size'
+    NC0b = 'arg0[0]._analogs._subframe[0]._channels.size'
     for name, lf in fors.items():
-        if lf['start_cv'] != '0' or lf['op'] != '<':
-            bad.append('loop over %s does not run over [0, bound)' % name)
-            continue
-        b = R.render(lf['bound'])
+        b = lf['bound']
         if name == fvar:
-            if b == 'this._data._frames.size':
-                pass
-            elif b == 'arg0.size' and '(arg0.size != this._data._frames.size)' in allg:
+            if b == 'this._data._frames.size' or (b == 'arg0.size' and refused('arg0.size', 'this._data._frames.size')):
                 pass
             else:
                 bad.append('frame loop bound is %s: must cover every stored frame' % b)
         elif name == vidx:
-            if kind == 'point' and b != 'arg0[0]._points._points.size':
+            if kind == 'point' and b != NP0:
                 bad.append('column loop bound is %s: every frame must receive the same columns (those of the first frame)' % b)
-            if kind == 'analog' and b != 'arg0[0]._analogs.subframe(0)._channels.size':
+            if kind == 'analog' and b not in (NC0, NC0b):
                 bad.append('column loop bound is %s: every sub-frame must receive the same columns (those of the first sub-frame)' % b)
         elif name == sfvar:
-            if b == 'this._header._nbAnalogByFrame':
-                pass
-            elif b == 'arg0[0]._analogs._subframe.size' and '(arg0[0]._analogs._subframe.size != this._header._nbAnalogByFrame)' in allg:
+            if b == 'this._header._nbAnalogByFrame' or (b in ('arg0[0]._analogs._subframe.size',) and refused(b, 'this._header._nbAnalogByFrame')):
                 pass
             else:
                 bad.append('sub-frame loop bound is %s: must cover every stored sub-frame' % b)
     if bad:
-        res.viol('column', inst, f.loc(n['id']), '; '.join(bad), function=f.sig, expr='bounds')
+        res.viol(rule, inst, f.loc(n['id']), '; '.join(bad), function=f.sig, expr='bounds')
     else:
-        res.ok('column', inst, f.loc(n['id']), 'exactly one append per stored frame%s and new column, value taken from the same frame%s and column of the argument' %
+        res.ok(rule, inst, f.loc(n['id']), 'exactly one append per stored frame%s and new column, value taken from the same frame%s and column of the argument' %
                (('/sub-frame', '/sub-frame') if sfvar else ('', '')), function=f.sig, expr='all')
+
+
+def column_rules(prog, res, rule='column'):
+    for name, kind in (('point', 'point'), ('analog', 'analog')):
+        fs = [f for f in prog.fns('ezc3d::c3d::' + name) if len(f.params) == 1 and f.params[0]['type'].startswith('const std::vector<')]
+        if len(fs) != 1:
+            raise AnalysisBroken('column adder c3d::%s(frames) vanished' % name)
+        column_adder(prog, res, fs[0], kind, rule)
 
 
 def run(prog, tier):
@@ -238,11 +258,7 @@ def run(prog, tier):
     res.minimum('indexed setters', len(setters), 4)
     for f, cont, el in setters:
         check_setter(prog, res, f, cont, el)
-    for name, kind in (('point', 'point'), ('analog', 'analog')):
-        fs = [f for f in prog.fns('ezc3d::c3d::' + name) if len(f.params) == 1 and f.params[0]['type'].startswith('const std::vector<')]
-        if len(fs) != 1:
-            raise AnalysisBroken('column adder c3d::%s(frames) vanished' % name)
-        column_adder(prog, res, fs[0], kind)
+    column_rules(prog, res)
     # "every other frame is unchanged" and "exactly one column per frame" need stored frames that
     # share nothing with each other or with the caller: the C08 ownership rule, evaluated here too
     import p_c08
